@@ -16,6 +16,7 @@ func init() {
 			"R7.2: an offer is labelled with the publisher's true id and username (the results of the up connection's User(), which reads the owning client), its label and the down connection's own id. " +
 			"R7.3: deleting an up connection with push set tells every other member (close = PushConn with a nil connection) on every path; every call site passes push as recorded in the frozen table; leaving deletes every up and down connection before DelClient; a WHIP session closing fans the close out too. " +
 			"R7.4: when nothing of a stream is requested the subscriber is sent a close for it; a failed negotiation closes the down connection with the error; closes act on the client's own connections. " +
+			"R7.6: replaceTracks reports 'unchanged' only when there is nothing to add and nothing to remove, and applies every difference; pushDownConn closes the downstream it replaces on every exit unless a successful offer announced the replacement; a stream marked closed accepts no new subscriber, and delUpConn marks it before announcing the close. " +
 			"R7.5: the requested kinds select the first audio track, the first video track for 'video', the last for 'video-low' (and limit the spatial layer when there is no separate low-quality track).",
 		NotDecided: []string{
 			"the iff over all histories (the 200 ms delayed push against closes, replace chains, renegotiation state)",
@@ -26,6 +27,7 @@ func init() {
 }
 
 func runC07(c *Ctx) {
+	defer runC07Pairing(c)
 	p := c.P
 	eng := p.Facts()
 	c.Rule("R7.1", "E2", "pushes are honoured only for the client's current group", 4)
@@ -572,5 +574,218 @@ func runC07(c *Ctx) {
 			}
 			c.Check(okStore && okForce, "R7.5", "replaceTracks applies the spatial limit to every track", rp.Pos(), "layer.limitSid = limitSid; wantedSid = 0 under limitSid", "the low-quality limit is not applied to the tracks")
 		}
+	}
+}
+
+// R7.6: the hand-shakes that keep "offered" and "closed" paired.
+func runC07Pairing(c *Ctx) {
+	p := c.P
+	c.Rule("R7.6", "E2/E3", "a narrowed request is applied; a replaced downstream is always closed; a closed stream accepts no new subscriber", 6)
+	eng := p.Facts()
+	// (a) replaceTracks says "unchanged" only when there is nothing to add and nothing to delete
+	if rp := p.Func("rtpconn", "", "replaceTracks"); rp != nil {
+		info := rp.Pkg.TypesInfo
+		ff := eng.Analyze(rp)
+		add, del := rp.localVar("add"), rp.localVar("del")
+		nret, bad := 0, ""
+		for _, ret := range ff.Returns() {
+			if len(ret.Results) != 2 || !isNilIdent(info, ret.Results[1]) {
+				continue
+			}
+			tv := info.Types[ret.Results[0]]
+			if tv.Value == nil || tv.Value.String() != "false" {
+				continue
+			}
+			nret++
+			st, _ := ff.At(ret)
+			empty := func(v types.Object) bool {
+				if st == nil || v == nil {
+					return false
+				}
+				for _, f := range st.Facts() {
+					if f.Op == "eq" && f.Pos && f.B != nil {
+						for _, pr := range [][2]*Term{{f.A, f.B}, {f.B, f.A}} {
+							if pr[0].Name == "0" && pr[1].K == 'k' && pr[1].Name == "len" && len(pr[1].Args) == 1 && pr[1].Args[0].K == 'v' && pr[1].Args[0].Obj == v {
+								return true
+							}
+						}
+					}
+				}
+				return false
+			}
+			if !empty(add) || !empty(del) {
+				bad = p.PosStr(ret.Pos())
+			}
+		}
+		c.Check(nret > 0 && bad == "", "R7.6", "replaceTracks: 'unchanged' only when nothing is added and nothing removed", rp.Pos(), "return false, nil only under len(add) == 0 && len(del) == 0", "replaceTracks reports that nothing changed (at "+bad+") although tracks are to be added or removed: a narrowed or widened request is silently not applied and not renegotiated")
+		// every del / add element is processed before "changed" is reported
+		okProc := true
+		for _, pr := range [][2]string{{"del", "delDownTrackUnlocked"}, {"add", "addDownTrackUnlocked"}} {
+			found := false
+			ast.Inspect(rp.Body(), func(n ast.Node) bool {
+				rs, ok := n.(*ast.RangeStmt)
+				if !ok {
+					return true
+				}
+				if id, ok := unparen(rs.X).(*ast.Ident); ok && info.Uses[id] == rp.localVar(pr[0]) {
+					ast.Inspect(rs.Body, func(m ast.Node) bool {
+						if call, ok := m.(*ast.CallExpr); ok && fnIs(calleeOf(&CallSite{Call: call, In: rp}), "rtpconn", "", pr[1]) {
+							if vid, ok := rs.Value.(*ast.Ident); ok && len(call.Args) == 2 && types.ExprString(call.Args[1]) == vid.Name {
+								found = true
+							}
+						}
+						return true
+					})
+				}
+				return true
+			})
+			if !found {
+				okProc = false
+			}
+		}
+		c.Check(okProc, "R7.6", "replaceTracks: every track to remove is removed, every track to add is added", rp.Pos(), "range del -> delDownTrackUnlocked, range add -> addDownTrackUnlocked", "the computed differences are not all applied")
+	} else {
+		c.Unknown("R7.6", "anchor replaceTracks", 0, "not found")
+	}
+	// (b) pushDownConn: the replaced downstream is closed on every exit
+	if pd := p.Func("rtpconn", "", "pushDownConn"); pd != nil {
+		info := pd.Pkg.TypesInfo
+		ff := eng.Analyze(pd)
+		var repl types.Object
+		for _, po := range pd.params(info) {
+			if po != nil && po.Name() == "replace" {
+				repl = po
+			}
+		}
+		var dfr *ast.DeferStmt
+		ast.Inspect(pd.Body(), func(n ast.Node) bool {
+			d, ok := n.(*ast.DeferStmt)
+			if !ok {
+				return true
+			}
+			fl, ok := d.Call.Fun.(*ast.FuncLit)
+			if !ok {
+				return true
+			}
+			closes := false
+			ast.Inspect(fl.Body, func(m ast.Node) bool {
+				if call, ok := m.(*ast.CallExpr); ok && fnIs(calleeOf(&CallSite{Call: call, In: pd}), "rtpconn", "", "closeDownConn") && len(call.Args) == 3 {
+					if id, ok := unparen(call.Args[1]).(*ast.Ident); ok && info.Uses[id] == repl {
+						closes = true
+					}
+				}
+				return true
+			})
+			if closes {
+				dfr = d
+			}
+			return true
+		})
+		okDefer := dfr != nil && repl != nil
+		early := ""
+		if okDefer {
+			for _, ret := range ff.Returns() {
+				if !ff.DominatedByNode(ret, dfr) {
+					okDefer = false
+					early = p.PosStr(ret.Pos())
+				}
+			}
+		}
+		c.Check(okDefer, "R7.6", "pushDownConn: the replaced downstream is closed on every exit", pd.Pos(), "defer closeDownConn(c, replace, \"\") (unless replace was consumed) is registered before any return", "pushDownConn can return (at "+early+") without closing the downstream it replaces: the subscriber keeps a stream that has ended")
+		// replace is cleared only after a negotiation that carried it succeeded
+		okClear, nclr := true, 0
+		ast.Inspect(pd.Body(), func(n ast.Node) bool {
+			if _, isLit := n.(*ast.FuncLit); isLit {
+				return false
+			}
+			as, ok := n.(*ast.AssignStmt)
+			if !ok || len(as.Lhs) != 1 {
+				return true
+			}
+			id, ok := as.Lhs[0].(*ast.Ident)
+			if !ok || info.Uses[id] != repl {
+				return true
+			}
+			nclr++
+			var neg *ast.CallExpr
+			ast.Inspect(pd.Body(), func(m ast.Node) bool {
+				if call, ok := m.(*ast.CallExpr); ok && fnIs(calleeOf(&CallSite{Call: call, In: pd}), "rtpconn", "", "negotiate") && len(call.Args) == 4 {
+					if rid, ok := unparen(call.Args[3]).(*ast.Ident); ok && info.Uses[rid] == repl {
+						neg = call
+					}
+				}
+				return true
+			})
+			st, _ := ff.At(as)
+			if neg == nil || st == nil || !ff.DominatedByNode(as, neg) || !st.HasFact(mkFact(true, "eq", TNil(), &Term{K: 'r', Name: "res0", Pos: neg.Lparen})) {
+				okClear = false
+			}
+			return true
+		})
+		c.Check(okClear && nclr == 1, "R7.6", "pushDownConn: the replacement is consumed only by a successful offer that names it", pd.Pos(), "replace = \"\" only after negotiate(..., replace) returned nil", "the replaced id is forgotten without having been announced as replaced: neither a replace nor a close reaches the subscriber")
+	} else {
+		c.Unknown("R7.6", "anchor pushDownConn", 0, "not found")
+	}
+	// (c) a closed up connection accepts no new local; the close marks it first
+	al := p.Func("rtpconn", "rtpUpConnection", "AddLocal")
+	du := p.Func("rtpconn", "", "delUpConn")
+	fClosed := p.Field("rtpconn", "rtpUpConnection", "closed")
+	fLocal := p.Field("rtpconn", "rtpUpConnection", "local")
+	if al == nil || du == nil || fClosed == nil || fLocal == nil {
+		c.Unknown("R7.6", "anchor AddLocal/delUpConn", 0, "not found")
+		return
+	}
+	{
+		info := al.Pkg.TypesInfo
+		ff := eng.Analyze(al)
+		recv := al.params(info)[0]
+		ok, n := true, 0
+		ast.Inspect(al.Body(), func(nd ast.Node) bool {
+			as, isAs := nd.(*ast.AssignStmt)
+			if !isAs || len(as.Lhs) != 1 {
+				return true
+			}
+			sel, isSel := unparen(as.Lhs[0]).(*ast.SelectorExpr)
+			if !isSel {
+				return true
+			}
+			if s := info.Selections[sel]; s == nil || s.Obj() != types.Object(fLocal) {
+				return true
+			}
+			n++
+			st, _ := ff.At(as)
+			if st == nil || !st.HasFact(mkFact(false, "true", TField(TVar(recv), fClosed), nil)) {
+				ok = false
+			}
+			return true
+		})
+		c.Check(ok && n > 0, "R7.6", "AddLocal: a closed stream accepts no new subscriber", al.Pos(), "up.local grows only under !up.closed (same critical section)", "a downstream can attach to a stream that has already been closed (the delayed push racing the close): the subscriber is offered a dead stream and never sent a close for it")
+	}
+	{
+		info := du.Pkg.TypesInfo
+		ff := eng.Analyze(du)
+		var mark ast.Node
+		var push *ast.CallExpr
+		ast.Inspect(du.Body(), func(nd ast.Node) bool {
+			switch x := nd.(type) {
+			case *ast.AssignStmt:
+				if len(x.Lhs) == 1 {
+					if sel, ok := unparen(x.Lhs[0]).(*ast.SelectorExpr); ok {
+						if s := info.Selections[sel]; s != nil && s.Obj() == types.Object(fClosed) {
+							if tv := info.Types[x.Rhs[0]]; tv.Value != nil && tv.Value.String() == "true" {
+								mark = x
+							}
+						}
+					}
+				}
+			case *ast.CallExpr:
+				if sel, ok := unparen(x.Fun).(*ast.SelectorExpr); ok && sel.Sel.Name == "PushConn" {
+					push = x
+				}
+			}
+			return true
+		})
+		okOrder := mark != nil && push != nil && ff.DominatedByNode(push, mark)
+		c.Check(okOrder, "R7.6", "delUpConn marks the stream closed before announcing the close", du.Pos(), "conn.closed = true dominates the PushConn(nil) fan-out", "the close is announced before the stream refuses new subscribers: a push in flight can attach after the close was sent")
 	}
 }
